@@ -81,9 +81,17 @@ def perturb(rng, ts, kinds, phased=True):
 def one(ctx, rng):
     from vlib import gen
     method = rng.choice(D.METHODS)
-    ts = D.datable_ts(rng, historical=(method == "variational_gamma" and rng.random() < 0.2), big=rng.random() < 0.15)
+    vg = method == "variational_gamma"
+    # samples that are ancestors / historical exercise the least-squares constraint phase, the one
+    # place where per-node sample status is re-derived from the flags
+    ts = D.datable_ts(rng, historical=(vg and rng.random() < 0.4), internal=(vg and rng.random() < 0.5),
+                      big=rng.random() < 0.15)
     kw = D.method_options(rng, method, ts)
+    if vg and rng.random() < 0.5:
+        kw["constr_iterations"] = rng.choice([1, 5, 50])
     kinds = rng.sample(PERTURBATIONS, rng.randint(1, len(PERTURBATIONS)))
+    if vg and rng.random() < 0.5 and "node_flag_bits" not in kinds:
+        kinds.append("node_flag_bits")
     seed2 = rng.randrange(10**9)
     import random
     ts2 = perturb(random.Random(seed2), ts, kinds)
